@@ -152,6 +152,10 @@ def families():
         out.append("> a " + i.replace("\n", "\n> ") + " b\n> #b\n")
         out.append("- a " + i.replace("\n", "\n  ") + " b\n  #b\n")
     out.append("[r]: /u\n")
+    # characters str.splitlines() treats as line ends (a file's readlines() does not), before block-significant text
+    for ch in ("\u2028", "\u2029", "\x85", "\x0c", "\x0b", "\x1c"):
+        for nxt in ("# not a heading", "1. x", "- x", "> x", "---"):
+            out.append("Some text" + ch + nxt + " \n")
     # code spans: delimiter run x padding x content with embedded backticks (MD038)
     for dl in ("`", "``"):
         for lp in ("", " ", "  ", "   "):
@@ -273,4 +277,84 @@ def link_edges():
                 out.append(f"- [l]({d}{t})\n")
                 out.append(f"- > [bar]: {d}\n")
     out += ["<http://a.b/c%2>\n", "<http://a.b/c%20d>\n", "<a@b.c>\n", "[l](/u \"t\" x)\n", "[l](/u\n\"t\")\n", "[l]( /u )\n", "[l](</u> \"t\")\n"]
+    return list(dict.fromkeys(out))
+
+
+MULTI = ["`a\nb`", "``a\n b``", "[a\nb](/u)", "[a](/u\n\"t\")", "[a](\n/u)", "<b\nc>", "<b c=\"d\ne\">", "![a\nb](/u)", "![a](/u\n\"t\")", "[a\nb][r]",
+         "[a\nb]", "[a][r\ns]", "![a][r\ns]", "x\\\ny", "x  \ny", "*a\nb*", "**a\nb**", "<!-- a\nb -->", "<http://a.b>\nq"]
+
+
+def multi_pairs():
+    """Two multi-line inline elements in one paragraph followed by short inline elements, with the continuation lines
+    indented differently (0 / 1 / 3 spaces) — per-line leading-whitespace bookkeeping across several elements."""
+    seen, out = set(), []
+    inds = ["", " ", "   "]
+    for m1 in MULTI:
+        for m2 in MULTI:
+            body = "a " + m1 + " c " + m2 + " *e* `f`"
+            ls = body.split("\n")
+            defs = "[a b]: /r\n[r]: /r\n[r s]: /r" if "[r" in body or "[a\nb]" in body else ""
+            for i1 in inds:
+                for i2 in inds:
+                    o = [ls[0]] + [(i1 if k % 2 == 1 else i2) + l for k, l in enumerate(ls[1:], 1)]
+                    d = "\n".join(o) + ("\n\n" + defs if defs else "\n")
+                    if d not in seen:
+                        seen.add(d); out.append(d)
+                    q = "\n".join("> " + l for l in o) + ("\n\n" + defs if defs else "\n")
+                    if i1 == i2 and q not in seen:
+                        seen.add(q); out.append(q)
+    return out
+
+
+def container_pairs():
+    """Two leaf blocks inside one container (and one level deeper), the second on the container's last line or followed by
+    one more line: what a rule or generator sees when it indexes per-line container prefixes."""
+    leaves = ["<!-- note -->", "<div>", "```\nc\n```", "# h", "---", "text", "- item", "1. item", "[r]: /u", "    code", "a\n===", "> q"]
+    conts = [("> ", "> "), ("- ", "  "), ("1. ", "   "), ("> - ", ">   "), ("- > ", "  > "), ("> > ", "> > ")]
+    out = []
+    for first, cont in conts:
+        for l1 in leaves:
+            for l2 in leaves:
+                lines = l1.split("\n") + l2.split("\n")
+                body = "\n".join((first if i == 0 else cont) + x for i, x in enumerate(lines))
+                out += [body + "\n", "# Title\n\n" + body + "\n", body + "\n" + cont + "tail\n"]
+    return list(dict.fromkeys(out))
+
+
+def corpus_marker_variants(limit_len=400):
+    """Every repo test document with ONE list marker swapped for another kind (unordered <-> ordered, with the continuation
+    indentation of the lines below adjusted by the width difference): the repo's own nesting shapes with the other list type."""
+    import re
+    out = []
+    mk = re.compile(r"^((?:[ >]|[-+*] |\d{1,3}[.)] )*?)([-+*]|\d{1,3}[.)]) ")
+    for d in repo_sources():
+        if len(d) > limit_len or "\t" in d:
+            continue
+        lines = d.split("\n")
+        for i, l in enumerate(lines):
+            pos = 0
+            # every marker occurrence on this line, left to right
+            for m in re.finditer(r"(?:(?<=^)|(?<=[ >]))([-+*]|\d{1,3}[.)]) ", l):
+                pre = l[:m.start()]
+                if not re.fullmatch(r"(?:[ >]|[-+*] |\d{1,3}[.)] )*", pre):
+                    continue
+                old = m.group(1)
+                for new in (("1.", "+") if old in "-+*" else ("-",)):
+                    if new == old:
+                        continue
+                    delta = len(new) - len(old)
+                    col = m.start()
+                    nl = lines[:]
+                    nl[i] = l[:col] + new + l[col + len(old):]
+                    for j in range(i + 1, len(lines)):
+                        x = lines[j]
+                        # a continuation line of this item is indented past the marker column: shift its content
+                        if len(x) > col + len(old) and x[col:col + len(old) + 1].strip() == "" and x[:col].replace(">", " ").strip(" ") == "" or \
+                           (len(x) > col + len(old) and x[col:col + len(old) + 1] == " " * (len(old) + 1)):
+                            nl[j] = x[:col] + (" " * delta if delta > 0 else "") + (x[col:] if delta >= 0 else x[col - delta:])
+                        elif x.strip(" >") == "":
+                            continue
+                        else:
+                            break
+                    out.append("\n".join(nl))
     return list(dict.fromkeys(out))
